@@ -9,7 +9,7 @@ EXTENDS Integers, Sequences, TLC, Json, IOUtils
 Trace == ndJsonDeserialize(IOEnv.IN_FILE)
 Laws == {"PM(PM(x,a),b)=PM(x,a+b)", "MZM-power-2Vpi-periodic", "MZM-noise-modulated-like-signal", "PM-noise-rotated-like-signal",
          "drive-kinds-agree-MZM", "drive-kinds-agree-PM", "PM-phase-is-pi*u/Vpi", "MZM-transfer-at-lattice-power", "LASER-|E|^2=P", "PM-total-power-unchanged", "MZM(BW)=BPF(MZM)",
-         "LASER-field=sqrt(P)*exp(j*2pi*df*t)", "MZM-pol-spelling"}
+         "LASER-field=sqrt(P)*exp(j*2pi*df*t)", "MZM-pol-spelling", "MZM-real-stored-field=complex-stored-field"}
 \* phase excursions of 1e-9 .. 1e-5 rad measured through angle(): rounding of the field (1e-16) limits the relative accuracy to about 1e-6
 SmallPhaseLaws == {"PM-small-drive-phase"}
 \* a drive stored as float32 is processed in float32 (eps 6e-8, times the phase excursion of up to a few hundred rad): 3e-4 relative
